@@ -88,6 +88,11 @@ def draw_scenario(cs, cfg):
     res_plain = []     # per live result: produced without a substituting harness nest?
     for i in range(nops):
         cands = list(range(len(res_plain))) if sc["allow_ctx_mismatch"] else [j for j, ok in enumerate(res_plain) if ok]
+        if i > 0 and cs.bool("user_edit", 1, 8):
+            # between two calls the caller rebinds one tensor attribute of its object (e.g. unties two names that
+            # shared a tensor): from then on THAT is the state every later call has to preserve
+            ops.append({"op": "EDIT", "debug": None, "nest": [], "seed": cs.draw(1000, "opseed")})
+            continue
         if not cands or cs.bool("fwd", 1, 2):
             op = {"op": "FWD", "F": draw_functional(cs, sc)}
         else:
@@ -756,7 +761,51 @@ def execute(sc, plan, reference=None, collect=None):
     values = []
     last_fspec = None
     nest_of_result = []   # harness nesting under which each live result was produced
+    def user_edit(op):
+        """the caller rebinds the last tensor slot of its first object to a new tensor of the same value"""
+        a = env.actors[0]
+        sn = Snapshot(a)
+        if not sn.slots:
+            return False
+        g = torch.Generator()
+        g.manual_seed(op["seed"])
+        for target in reversed(sn.slots):
+            path = target.path.split(".", 1)[1] if "." in target.path else None
+            if path is None or not target.ref.dtype.is_floating_point:
+                continue
+            old = target.ref
+            new = old.detach().clone().requires_grad_(old.requires_grad)
+            if isinstance(old, torch.nn.Parameter):
+                new = torch.nn.Parameter(new.detach(), requires_grad=old.requires_grad)
+            # plain python assignment, as a user would do it
+            parts = path.replace("]", "").replace("[", ".[").split(".")
+            try:
+                obj = a
+                for p_ in parts[:-1]:
+                    obj = obj[eval(p_[1:])] if p_.startswith("[") else getattr(obj, p_)
+                last = parts[-1]
+                if last.startswith("["):
+                    obj[eval(last[1:])] = new
+                else:
+                    setattr(obj, last, new)
+            except TypeError:      # a slot inside an immutable container
+                continue
+            break
+        else:
+            return False
+        return True
+
     for opidx, op in enumerate(sc["ops"]):
+        if op["op"] == "EDIT":
+            done = user_edit(op)
+            if done:
+                SIM.count("reach.user_rebinds_tensor_between_calls")
+                init_snaps[:] = [Snapshot(a, "obj%d" % i) for i, a in enumerate(env.actors)]
+            values.append({"raised": None, "value": None})
+            info["ops"].append({"op": "EDIT", "raised": None, "events": (SIM.seq + 1, SIM.seq)})
+            nest_of_result.append([]) if False else None
+            SIM.note("op", opidx, "EDIT", None)
+            continue
         # "ctx": a backward pass issued while the object holds other tensors than when the
         # forward ran (different harness-opened substitution) - see known finding stale-wrapper
         def _subst(nest):
